@@ -79,7 +79,12 @@ func runModule(t *testing.T, mk func() *adapter, n hx.N) {
 		curCase = c
 		a := mk()
 		t0 := hx.Epoch + uint64(rapid.IntRange(0, 999).Draw(t, "t0"))
-		hx.Reset(t0)
+		caseCfg := hx.DefaultStat
+		if k := rapid.IntRange(0, 3*len(hx.StatCfgs)).Draw(t, "statConfig"); k < len(hx.StatCfgs) { // one case in three under a legal non-default statistic configuration
+			caseCfg = hx.StatCfgs[k]
+		}
+		c.ClassIf(caseCfg != hx.DefaultStat, "non-default-statistic-configuration")
+		hx.ResetCfg(t0, caseCfg, nil)
 		if err := a.clearAll(); err != nil {
 			t.Fatalf("%s: clear at case start: %v", a.name, err)
 		}
@@ -365,7 +370,7 @@ func runModule(t *testing.T, mk func() *adapter, n hx.N) {
 			plan := drawProbe(t, a.resources)
 			var tr1, tr2 string
 			guard("probe traffic", func() { tr1 = a.probe(t0, plan) })
-			hx.Reset(t0)
+			hx.ResetCfg(t0, caseCfg, nil)
 			var fresh []any
 			for _, res := range a.resources {
 				fresh = append(fresh, cloneList(a, model[res])...)
